@@ -1,7 +1,7 @@
 #!/bin/bash
 # usage: tools/sweep.sh "<seeds>" [tier] -- run every claimed check for each seed, report anything that is not exit 0
 seeds=${1:-"1 2 3"}; tier=${2:-quick}
-cd /verif
+cd "$(dirname "$(readlink -f "$0")")/.."
 for s in $seeds; do
   for c in $(python3 -c "import json; print(' '.join(x['property_id'] for x in json.load(open('MANIFEST.json'))['checks']))"); do
     out=$(VERIF_SEED=$s timeout 1500 ./check $c $tier 2>&1); rc=$?
